@@ -335,6 +335,35 @@ func c02(c *Ctx) {
 				}, Target: core.SuccessTarget(HV, g.ErrOK)})
 				r.Check(w1 == nil && w2 == nil, "R1.case", ckey+"success-is-root-verdict-or-empty", pos, "succeeds only with the receipt validator's verdict, or with empty content for a header whose receipt root is the empty root", "receipts can be accepted without their root having been recomputed (outside the empty-root/empty-content shortcut): "+p.PathString(w1)+p.PathString(w2))
 				_ = shortcut
+				// a block without receipts has exactly one valid encoding, the empty string: when the
+				// header's root is the empty root, success requires len(content) == 0 (the list decoder
+				// also takes 0x00000000 for an empty list, so the root comparison alone does not say so)
+				isRoot := func(v ssa.Value) bool {
+					return derivesFromHeaderField(v, "ReceiptHash") && core.Derives(v, func(x ssa.Value) bool { return x == hdr }, core.DeriveOpts{ThroughCalls: true})
+				}
+				isEmptyConst := func(v ssa.Value) bool {
+					return core.Derives(v, func(x ssa.Value) bool {
+						g, ok := x.(*ssa.Global)
+						return ok && strings.Contains(strings.ToLower(g.Name()), "empty")
+					}, core.DeriveOpts{})
+				}
+				rootNotEmpty := core.AnyFact(func(f core.Fact) bool {
+					if f.Op == token.ILLEGAL && !f.Truth {
+						if cc, ok := f.V.(*ssa.Call); ok && core.CalleeID(cc) == "bytes.Equal" {
+							a, b := cc.Call.Args[0], cc.Call.Args[1]
+							return (isRoot(a) && isEmptyConst(b)) || (isRoot(b) && isEmptyConst(a))
+						}
+					}
+					if f.Op == token.NEQ {
+						return (isRoot(f.X) && isEmptyConst(f.Y)) || (isRoot(f.Y) && isEmptyConst(f.X))
+					}
+					return false
+				})
+				w3 := core.CutReach(core.CutSpec{Fn: HV, From: start, Cut: func(b *ssa.BasicBlock, i int) bool {
+					fs := core.EdgeFacts(b, i)
+					return rootNotEmpty(fs) || noContent(fs)
+				}, Target: core.SuccessTarget(HV, nil)})
+				r.Check(w3 == nil, "R1.case", ckey+"empty-root-needs-empty-content", pos, "for a header whose receipt root is the empty root only the empty string is accepted", "non-empty content can be accepted under the key of a block without receipts (e.g. 0x00000000, which the list decoder takes for an empty list): "+p.PathString(w3))
 			} else {
 				w := core.CutReach(core.CutSpec{Fn: HV, From: start, Cut: func(b *ssa.BasicBlock, i int) bool { return g.Edge(core.EdgeFacts(b, i)) }, Target: core.SuccessTarget(HV, g.ErrOK)})
 				r.Check(w == nil, "R1.case", ckey+"success-is-root-verdict", pos, "succeeds only with the body validator's verdict", "a body can be accepted without its roots having been recomputed: "+p.PathString(w))
@@ -586,7 +615,24 @@ func lostErrorRule(c *Ctx, rule, what string, roots []*ssa.Function, pkgs []stri
 			}
 			r.Fail(rule, k, p.Pos(core.InstrPos(d.Def.(ssa.Instruction))), "an error on the validation path can be lost: "+d.How+" ("+p.PathString(d.Path)+"): malformed content that made this call fail is treated as valid")
 		}
-		if len(ds) == 0 {
+		// an error assigned to a named variable whose value is never read (shadowing)
+		dead := 0
+		if pk, _ := p.FileOf(f.Pos()); pk != nil {
+			for _, in := range core.DeadErrorStores(f, pk.TypesInfo) {
+				dead++
+				callee := "call"
+				if cc, ok := in.(*ssa.Call); ok {
+					callee = shortID(core.CalleeID(cc))
+				}
+				k := core.FuncName(f) + " dead-error-of " + callee
+				seenK[k]++
+				if seenK[k] > 1 {
+					k = fmt.Sprintf("%s #%d", k, seenK[k])
+				}
+				r.Fail(rule, k, p.Pos(core.InstrPos(in)), "the error of this call is assigned to a variable but that value is never read (a shadowed variable of the same name is what is checked or returned): a failure of this step is silently ignored")
+			}
+		}
+		if len(ds) == 0 && dead == 0 {
 			n++
 		}
 	}
